@@ -46,9 +46,30 @@ def monitor(c):
         if active:
             return ("%s: layers %r were not torn down" % (pname, active), "C04:teardown")
         nruns = len(truth.layer_runs(c, evs, {}) if False else [])
+    # a layer hook that raised is "recorded as an error": the verdict says so, and the layer's tests do not run on
+    # top of a set-up that failed
+    tests = {t["id"]: t for t in w["tests"]}
+    hook_failures = 0
+    for pname, evs in [("parent", parent)] + [("child %r" % (k,), v) for k, v in children.items()]:
+        failed = set()
+        for e in evs:
+            if e[0] == "lsu":
+                if e[2]:
+                    failed.discard(e[1])
+                else:
+                    failed.add(e[1])
+                    hook_failures += 1
+            elif e[0] == "ltd" and e[2] == "raise":
+                hook_failures += 1
+            elif e[0] == "tstart" and failed:
+                need = worlds.closure(w["layers"], tests[e[1]]["layer"])
+                if need & failed:
+                    return ("%s: t%d ran although the set-up of layer(s) %r had failed" % (pname, e[1], sorted(need & failed)),
+                            "C04:ran-on-failed-setup")
+    if hook_failures and c.obs.exit != 1 and not c.obs.timeout:
+        return ("%d layer hook(s) raised but the run exited with status %r" % (hook_failures, c.obs.exit), "C04:hook-not-recorded")
     # a summary for every layer iteration that ran tests
     parsed = worlds.parse_output(out)
-    tests = {t["id"]: t for t in w["tests"]}
     nlayer_iters = 0
     for evs in [parent] + list(children.values()):
         seen = set()
@@ -89,6 +110,21 @@ def gen_cases(ctx):
         if rng.random() < 0.2:
             o["xml"] = "xmlout"         # the XML wrapper sits in front of the formatter
         cases.append(cw.Case(w, o))
+    # directed: errors whose traceback has no frame outside unittest (a built-in registered as clean-up fails), and
+    # layer hooks that raise an AttributeError naming the hook
+    for i in range(6 if ctx.quick() else 100):
+        w = worlds.gen_world(rng, n_layers=rng.choice([2, 3]), tests_per_layer=(1, 3),
+                             kinds=["errCleanup", "errCleanup", "pass", "fail"], p_fault=0.5, p_write=0.2)
+        for t in w["tests"]:
+            for c_ in t["cleanups"]:
+                if c_.get("exc") in ("fail", "error"):
+                    c_["exc"] = "error"
+                    c_["excStyle"] = "noframes"
+        for l in w["layers"]:
+            if l["kind"] != "unit":
+                l["excStyle"] = "attr-hook"
+        o = {"verbose": rng.choice([0, 1, 2]), "buffer": rng.random() < 0.5, "processes": rng.choice([1, 1, 2])}
+        cases.append(cw.Case(w, o, "directed:noframes"))
     return cases
 
 
